@@ -391,6 +391,9 @@ fn run_one(sc: &Value) -> Value {
     let obs0 = m.observe();
     let mut out: Vec<Value> = Vec::with_capacity(steps);
     let mut error: Value = Value::Null;
+    // optional "step_errors":"record" (machine.run, single-stepped only): an Err returned by CoreRuntime::step does
+    // not end the run; it is attached to that step's record ("err") and the host keeps stepping.  Absent: unchanged.
+    let record_errors = get_str(sc, "step_errors", "") == "record";
     for k in 0..steps {
         let mut rec = serde_json::Map::new();
         if let Some(list) = evs.get(&k) {
@@ -407,8 +410,13 @@ fn run_one(sc: &Value) -> Value {
         match r {
             Ok(Ok(())) => {}
             Ok(Err(e)) => {
-                error = json!(format!("step {k}: {e}"));
-                break;
+                if record_errors {
+                    // the host loop keeps stepping after an error return: the error text travels with the step record
+                    rec.insert("err".to_string(), json!(format!("{e}")));
+                } else {
+                    error = json!(format!("step {k}: {e}"));
+                    break;
+                }
             }
             Err(_) => {
                 error = json!(format!("step {k}: panic"));
